@@ -28,7 +28,7 @@ FoldMon(m, evs, k) == IF k > Len(evs) THEN m ELSE FoldMon(MonEv(m, evs[k]), evs,
 (* the quiescence clause is about one step of the bus thread; in run mode (token "run": arbitrary batches of events of *)
 (* several threads) a client may submit right after the handler dropped its requests, so it is not applied there        *)
 StepMon(m, evs, tok) == LET m2 == FoldMon(m, evs, 1) IN
-                        IF OnQ /\ tok # "run" THEN [m2 EXCEPT !.qm = ReqQuiescent(m2.qm, evs)] ELSE m2
+                        IF OnQ /\ tok # "run" THEN [m2 EXCEPT !.qm = ReqIdleStep(m.qm, ReqQuiescent(m2.qm, evs), evs)] ELSE m2
 
 Init == node = 1 /\ mon = MonInit /\ lastIn = ""
 Next == \E k \in 1..Len(G[node].succ) :
